@@ -66,6 +66,15 @@ func runC14(t *simrt.Tape, o Opts) Outcome {
 			}
 			w.LatencyMenu = []time.Duration{time.Millisecond, prec / 2, prec, prec + time.Second}
 		}
+		// lost acknowledgements: an insert is applied but reported as failed (one racer in four runs)
+		if t.Choose(4, "lost-acks") == 1 {
+			w.Faults.Random = true
+			w.Faults.Kinds["ms.errafter"] = true
+			w.Faults.Kinds["ms.readonly-faults"] = false
+			if w.Faults.RateDen == 0 {
+				w.Faults.RateNum, w.Faults.RateDen = 1, 6
+			}
+		}
 		if t.Choose(4, "clock-skew") == 1 {
 			w.ClockSkews = []time.Duration{0, 300 * time.Millisecond, -300 * time.Millisecond, pol.Precision, -pol.Precision, 3 * pol.Precision, -3 * pol.Precision}
 		}
@@ -110,6 +119,9 @@ func runC14(t *simrt.Tape, o Opts) Outcome {
 						return
 					}
 					if rec == nil {
+						if op.Faulted > 0 {
+							continue // an injected failure inside this operation: it may fail, never lie
+						}
 						w.Violate("encrypt-failed", "encrypt-failed/racing", "process %d could not encrypt while racing for key creation: %v", a.p.ID, op.Err)
 						return
 					}
@@ -129,7 +141,8 @@ func runC14(t *simrt.Tape, o Opts) Outcome {
 			s.Join(tk)
 		}
 		w.Drain()
-		// oracles
+		// oracles (with every fault switched off: what is judged is what the race left behind)
+		w.Faults.Off = true
 		snap := w.Snapshot()
 		dups := 0
 		order := ""
